@@ -73,3 +73,54 @@ package index
 //@   property C04 C18
 //@   ensures len(keys) == 0 ==> result.head == nil
 //@   ensures len(keys) > 0 ==> result.head != nil && bytesEq(result.head, keys[0]) && result.tail == keys[1:]
+
+// ---------------------------------------------------------------------------
+// The string forms of the fixed-width encoders (C18): decimal, the width of the key type, and
+// the key is the encoder's image of the parsed number - so the textual and the typed query
+// for one value address the same key.
+//@ func Int
+//@   property C18
+//@   ensures @as-int32 -2147483648 <= n && n <= 2147483647 ==> len(result) == 4 && be32(result) == (n >= 0 ? n : n + 4294967296)
+//@ func IntString returns (k, err)
+//@   property C18
+//@   flag nosafety
+//@   atcall Int32String@1 requires @same-text $0 == s
+//@   mustcall Int32String@1 when @always true
+//@ func Int64String returns (k, err)
+//@   property C18
+//@   flag nosafety
+//@   atcall ParseInt@1 requires @decimal-64-bit $0 == s && $1 == 10 && $2 == 64
+//@   ensures @key-of-the-parsed-number err == nil ==> len(k) == 8 && be64(k) == (parsedInt(s) >= 0 ? parsedInt(s) : parsedInt(s) + 18446744073709551616)
+//@ func Int32String returns (k, err)
+//@   property C18
+//@   flag nosafety
+//@   atcall ParseInt@1 requires @decimal-32-bit $0 == s && $1 == 10 && $2 == 32
+//@   ensures @key-of-the-parsed-number err == nil ==> len(k) == 4 && be32(k) == (parsedInt(s) >= 0 ? parsedInt(s) : parsedInt(s) + 4294967296)
+//@ func Int16String returns (k, err)
+//@   property C18
+//@   flag nosafety
+//@   atcall ParseInt@1 requires @decimal-16-bit $0 == s && $1 == 10 && $2 == 16
+//@   ensures @key-of-the-parsed-number err == nil ==> len(k) == 2 && be16(k) == (parsedInt(s) >= 0 ? parsedInt(s) : parsedInt(s) + 65536)
+//@ func Uint64String returns (k, err)
+//@   property C18
+//@   flag nosafety
+//@   atcall ParseUint@1 requires @decimal-64-bit $0 == s && $1 == 10 && $2 == 64
+//@   ensures @key-of-the-parsed-number err == nil ==> len(k) == 8 && be64(k) == parsedInt(s)
+//@ func Uint32String returns (k, err)
+//@   property C18
+//@   flag nosafety
+//@   atcall ParseUint@1 requires @decimal-32-bit $0 == s && $1 == 10 && $2 == 32
+//@   ensures @key-of-the-parsed-number err == nil ==> len(k) == 4 && be32(k) == parsedInt(s)
+//@ func Uint16String returns (k, err)
+//@   property C18
+//@   flag nosafety
+//@   atcall ParseUint@1 requires @decimal-16-bit $0 == s && $1 == 10 && $2 == 16
+//@   ensures @key-of-the-parsed-number err == nil ==> len(k) == 2 && be16(k) == parsedInt(s)
+// Foreach visits the head first and then the tail keys, each as stored.
+//@ func KeySet.Foreach
+//@   property C04
+//@   flag nosafety
+//@   flag dyncall.fn=pure
+//@   atcall fn@1 requires @head-first $0 == ks.head && ks.head != nil
+//@   atcall fn@2 requires @then-each-tail-key $0 == k
+//@   mustcall fn@1 when @non-empty-set-visits-its-head ks.head != nil
